@@ -20,7 +20,8 @@ META = dict(
          "(latest definition in execution order, once per call, lines in order); a call that would recurse directly or "
          "indirectly must fail (method error on the call line) instead of running; editing or removing a macro that has "
          "started must be rejected at every later tick.",
-    note="Programs <= 4 statements (5 thorough), nesting <= 2; a call to an undefined macro is outside the statement (either "
+    note="Programs <= 4 statements (5 thorough), nesting <= 2, plus every sequence of 4 (5) top-level items with one-line macro "
+         "bodies in which a macro is defined twice (redefinition that may close a call cycle); a call to an undefined macro is outside the statement (either "
          "behaviour accepted); horizon 44 ticks, the run must be quiescent before the comparison.",
 )
 
@@ -192,9 +193,25 @@ def valid(forest) -> bool:
     return ok(forest, False)
 
 
+def redefinition_family(ctx):
+    """Redefinitions are beyond the node bound of the plain enumeration (two definitions with bodies and two calls are six
+    lines): every sequence of 4 (thorough 5) top-level items out of {Macro A|B with a one-line body (Mark, Call macro A,
+    Call macro B), Call macro A, Call macro B, Mark} in which a macro is defined twice and something is called."""
+    import itertools
+    tops = [(m, ((b, ()),)) for m in ("MA", "MB") for b in ("M", "CA", "CB")] + [("CA", ()), ("CB", ()), ("M", ())]
+    out = []
+    for n in ((4,) if ctx.quick else (4, 5)):
+        for seq in itertools.product(tops, repeat=n):
+            kinds = [k for k, _ in seq]
+            if not (kinds.count("MA") >= 2 or kinds.count("MB") >= 2) or not ("CA" in kinds or "CB" in kinds):
+                continue
+            out.append(tuple(seq))
+    return out
+
+
 def run(ctx):
     n = 4 if ctx.quick else 5
-    forests = [f for f in pgen.programs(KINDS, n, depth=2) if valid(f)]
+    forests = [f for f in pgen.programs(KINDS, n, depth=2) if valid(f)] + redefinition_family(ctx)
     ctx.prove_deterministic(lambda f: check_program(f)[0], [forests[0], forests[len(forests) // 2]], k=2)
     results = ctx.pmap(check_program, forests)
     execs = nontrivial = edits = 0
